@@ -5,9 +5,9 @@ package gcs
 func ZZ_C08_frombytes() {
 	nb := vCase("nbytes", 0, vParam("maxbytes", 3))
 	raw := vBytes("raw", nb)
-	p := uint8(vCase("p", 0, 33))
-	if vParam("allp", 0) == 0 && p > 3 && p < 31 {
-		return
+	p := []uint8{0, 2, 32, 33}[vCase("pclass", 0, 3)]
+	if vParam("allp", 0) == 1 {
+		p = uint8(vCase("p", 0, 33))
 	}
 	m := vU64("M")
 	n := vU32("n")
@@ -18,7 +18,7 @@ func ZZ_C08_frombytes() {
 		return
 	}
 	vReach("built")
-	q := zzItems("q", vCase("nq", 0, 2))
+	q := zzItems("q", vCase("nq", 0, vParam("maxq", 1)))
 	switch vCase("method", 0, 3) {
 	case 0:
 		if len(q) > 0 {
